@@ -53,9 +53,11 @@ def RA(f, c): return [7, f, c]
 def EB(c): return [10, c]                 # real leptos <ErrorBoundary>
 def SU(fb, c): return [11, fb, c]         # real leptos <Suspense fallback=fb>
 def TR(fb, c): return [12, fb, c]         # real leptos <Transition fallback=fb>
+def RES(f, c): return [13, f, c]          # move || res_f.get().map(|_| c): synchronous read of a resource
 def Cm(f): return [0, f]
 P = [1]
-LEPTOS_KINDS = {10, 11, 12}
+LEPTOS_KINDS = {10, 11, 12, 13}
+TICK, CREATE, RENDER = [2], [3], [4]      # extra schedule events of opcode 1 (executor turns under control)
 TAGS = ["div", "p", "span", "b"]
 
 
@@ -69,7 +71,7 @@ def futures_of(v):
         return futures_of(v[1])
     if k == 2:
         return [f for c in v[1:] for f in futures_of(c)]
-    if k in (3, 7):
+    if k in (3, 7, 13):
         return [v[1]] + futures_of(v[2])
     if k == 4:
         return [v[1]] + futures_of(v[2]) + futures_of(v[3])
@@ -98,7 +100,7 @@ def children(v):
         return [v[1]]
     if k == 2:
         return v[1:]
-    if k in (3, 7):
+    if k in (3, 7, 13):
         return [v[2]]
     if k == 4:
         return [v[2], v[3]]
@@ -145,6 +147,8 @@ def show_view(v):
     if k in (11, 12):
         n = "Suspense" if k == 11 else "Transition"
         return "<%s fallback=%s>%s</%s>" % (n, show_view(v[1]), show_view(v[2]), n)
+    if k == 13:
+        return "{move || res%d.get().map(|_| %s)}" % (v[1], show_view(v[2]))
     return "?"
 
 
@@ -166,7 +170,7 @@ class Lab:
         return base
 
 
-def gen_view(rng, lab, fut, depth, allow, in_fallback=False):
+def gen_view(rng, lab, fut, depth, allow, in_fallback=False, in_susp=False):
     """allow: set of node kinds; fut: [next free future id, limit]"""
     leafy = depth <= 0
     opts = [0, 0, 1] if leafy else [0, 1, 1, 2, 2, 2]
@@ -188,18 +192,24 @@ def gen_view(rng, lab, fut, depth, allow, in_fallback=False):
             opts += [11, 11]
         if 12 in allow and not in_fallback:
             opts += [12]
+        if 13 in allow and in_susp and not in_fallback and fut[0] < fut[1]:
+            opts += [13, 13, 13]
     k = rng.choice(opts)
     if k == 0:
         return T(lab.text())
     if k == 1:
-        return E(rng.randrange(4), gen_view(rng, lab, fut, depth - 1, allow, in_fallback))
+        return E(rng.randrange(4), gen_view(rng, lab, fut, depth - 1, allow, in_fallback, in_susp))
     if k == 2:
         n = rng.choice([0, 1, 2, 2, 3, 3, 4])
-        return Tu(*[gen_view(rng, lab, fut, depth - 1, allow, in_fallback) for _ in range(n)])
+        return Tu(*[gen_view(rng, lab, fut, depth - 1, allow, in_fallback, in_susp) for _ in range(n)])
     if k == 3:
         f = fut[0]
         fut[0] += 1
-        return S(f, gen_view(rng, lab, fut, depth - 1, allow, in_fallback))
+        return S(f, gen_view(rng, lab, fut, depth - 1, allow, in_fallback, False))
+    if k == 13:
+        f = fut[0]
+        fut[0] += 1
+        return RES(f, gen_view(rng, lab, fut, min(depth - 1, 1), {0, 1, 2}, True))
     if k == 4:
         f = fut[0]
         fut[0] += 1
@@ -217,10 +227,10 @@ def gen_view(rng, lab, fut, depth, allow, in_fallback=False):
         fut[0] += 1
         return RA(f, gen_view(rng, lab, fut, depth - 1, allow))
     if k == 10:
-        return EB(gen_view(rng, lab, fut, depth - 1, allow))
+        return EB(gen_view(rng, lab, fut, depth - 1, allow, False, in_susp))
     if k in (11, 12):
         fb = gen_view(rng, lab, fut, min(depth - 1, 1), {0, 1, 2}, True)
-        return [k, fb, gen_view(rng, lab, fut, depth - 1, allow)]
+        return [k, fb, gen_view(rng, lab, fut, depth - 1, allow, False, True)]
 
 
 def templates():
@@ -263,6 +273,14 @@ def templates():
     t.append(("l-susp-susp-in-susp", d(SU(E(2, T("L1")), S(1, Tu(E(3, T("C1")), S(2, p(T("in")))))))))
     t.append(("l-trans", d(Tu(p(T("h")), TR(E(2, T("L1")), S(1, E(3, T("C1")))), E(2, T("t"))))))
     t.append(("l-susp-text", d(Tu(T("a"), SU(T("L1"), S(1, T("C1"))), T("c")))))
+    # children that read a resource synchronously (move || res.get())
+    t.append(("l-res", d(Tu(E(2, T("x")), SU(E(3, T("L1")), RES(1, E(3, T("C1")))), E(2, T("t"))))))
+    t.append(("l-res-trans", d(Tu(E(2, T("x")), TR(E(3, T("L1")), RES(1, E(3, T("C1")))), E(2, T("t"))))))
+    t.append(("l-res-susp", d(SU(p(T("L1")), Tu(RES(1, p(T("C1"))), S(2, p(T("C2"))))))))
+    t.append(("l-res2", d(SU(p(T("L1")), Tu(RES(1, p(T("C1"))), p(T("m")), RES(2, p(T("C2"))))))))
+    t.append(("l-res-sib", d(Tu(SU(p(T("L1")), RES(1, p(T("C1")))), SU(p(T("L2")), RES(2, p(T("C2"))))))))
+    t.append(("l-res-nest", d(SU(p(T("L1")), Tu(RES(1, p(T("C1"))), SU(E(2, T("L2")), RES(2, E(3, T("C2")))))))))
+    t.append(("l-res-eb", d(Tu(p(T("h")), EB(SU(E(2, T("L1")), RES(1, E(3, T("C1"))))), E(2, T("t"))))))
     t.append(("F-C07", Tu(a, S(1, b), c)))
     t.append(("F-C07-before", Tu(S(1, a), b)))
     return t
@@ -285,6 +303,61 @@ def schedules(futs, rng, limit):
     return out
 
 
+def tick_schedules(tree, rng, limit):
+    """opcode 1: create / tick* / render, then every distinct order of the completions, two
+    executor turns and two polls; also 'resource already loaded before the render'"""
+    futs = futures_of(tree)
+    res = [f for f in futs if f in res_futures(tree)]
+    out = []
+    pres = [[], [CREATE], [CREATE, TICK]]
+    if res:
+        pres += [[CREATE] + [Cm(f) for f in res] + [TICK], [CREATE] + [Cm(f) for f in res]]
+    for pre in pres:
+        done = {e[1] for e in pre if e[0] == 0}
+        rest = [Cm(f) for f in futs if f not in done]
+        pool = rest + [TICK, TICK, P, P]
+        seen = set()
+        perms = itertools.permutations(range(len(pool)))
+        if len(pool) > 6:
+            perms = (rng.sample(range(len(pool)), len(pool)) for _ in range(400))
+        for perm in perms:
+            seq = tuple(tuple(pool[i]) for i in perm)
+            if seq in seen:
+                continue
+            seen.add(seq)
+            out.append(pre + [RENDER] + [list(e) for e in seq])
+    if limit is not None and len(out) > limit:
+        out = rng.sample(out, limit)
+    return out
+
+
+def res_futures(v, acc=None):
+    acc = set() if acc is None else acc
+    if v[0] == 13:
+        acc.add(v[1])
+    for c in children(v):
+        res_futures(c, acc)
+    return acc
+
+
+def rand_tick_schedule(rng, tree):
+    futs = futures_of(tree)
+    res = sorted(res_futures(tree))
+    pre = rng.choice([[], [CREATE], [CREATE, TICK], [CREATE] + [Cm(f) for f in res] + [TICK],
+                      [CREATE] + [Cm(f) for f in res]])
+    done = {e[1] for e in pre if e[0] == 0}
+    rest = [f for f in futs if f not in done]
+    rng.shuffle(rest)
+    if rest and rng.random() < 0.2:
+        rest = rest[: rng.randrange(len(rest) + 1)]
+    s = []
+    for f in rest:
+        s += [rng.choice([P, TICK]) for _ in range(rng.choice([0, 0, 1, 1, 2, 3]))]
+        s.append(Cm(f))
+    s += [rng.choice([P, TICK]) for _ in range(rng.choice([0, 1, 2]))]
+    return pre + [RENDER] + s
+
+
 def rand_schedule(rng, futs):
     fs = list(futs)
     rng.shuffle(fs)
@@ -302,36 +375,57 @@ FAMILIES = [
     ("real", {0, 1, 2, 3}),
     ("boundary", {0, 1, 2, 3, 4}),
     ("api", {0, 1, 2, 3, 4, 5, 6, 7}),
-    ("leptos", {0, 1, 2, 3, 10, 11, 12}),
+    ("leptos", {0, 1, 2, 3, 10, 11, 12, 13}),
 ]
 
 
-def item(ooo, drive, tree, init, sched, kind):
+def item(ooo, drive, tree, init, sched, kind, op=0):
     # the real leptos components are not modelled: oracle only
     compare = not (kinds_in(tree) & LEPTOS_KINDS)
-    return dict(case=C.norm([0, ooo, drive, tree, init, sched]), kind=kind, compare=compare)
+    return dict(case=C.norm([op, ooo, drive, tree, init, sched]), kind=kind, compare=compare)
+
+
+def res_placement_ok(v, in_susp=False):
+    """a synchronous resource read is only streamed correctly under a <Suspense>/<Transition>
+    (and not inside the content of a Suspend, which nobody re-resolves)"""
+    k = v[0]
+    if k == 13:
+        return in_susp
+    if k in (11, 12):
+        return res_placement_ok(v[1], False) and res_placement_ok(v[2], True)
+    if k in (3, 7):
+        return res_placement_ok(v[2], False)
+    return all(res_placement_ok(c, in_susp) for c in children(v))
 
 
 def valid_case(it):
     """generator preconditions (the shrinker keeps only candidates satisfying them)"""
     try:
         case = it["case"]
-        if len(case) != 6 or case[0] != 0 or case[1] not in (0, 1) or case[2] not in (0, 1):
+        if len(case) != 6 or case[0] not in (0, 1) or case[1] not in (0, 1) or case[2] not in (0, 1):
             return False
         tree = case[3]
-        if not wf_view(tree, False):
+        if not wf_view(tree, False) or not res_placement_ok(tree):
             return False
         futs = futures_of(tree)
         if len(futs) != len(set(futs)) or len(futs) > 6:
             return False
+        ks = kinds_in(tree)
+        if (ks & LEPTOS_KINDS) and (ks & {4, 5, 6, 7}):
+            return False      # the harness' call-pattern views do not resolve their children
+        if case[0] == 1:
+            # executor turns under the schedule's control: leptos components only, oracle only
+            if case[2] != 0 or case[4] != [] or not (ks & LEPTOS_KINDS) or it.get("compare", True):
+                return False
+            for e in case[5]:
+                if not (e in ([1], [2], [3], [4]) or (len(e) == 2 and e[0] == 0 and e[1] in futs)):
+                    return False
+            return True
         if any(f not in futs for f in case[4]):
             return False
         for e in case[5]:
             if not (e == [1] or (len(e) == 2 and e[0] == 0 and e[1] in futs)):
                 return False
-        ks = kinds_in(tree)
-        if (ks & LEPTOS_KINDS) and (ks & {4, 5, 6, 7}):
-            return False      # the harness' call-pattern views do not resolve their children
         return bool(it.get("compare", True)) == (not (ks & LEPTOS_KINDS))
     except Exception:
         return False
@@ -361,6 +455,9 @@ def wf_view(v, in_fallback):
         return len(v) == 3 and isinstance(v[1], int) and v[1] > 0 and wf_view(v[2], False)
     if k in (11, 12):
         return len(v) == 3 and wf_view(v[1], True) and not futures_of(v[1]) and wf_view(v[2], False)
+    if k == 13:
+        return len(v) == 3 and isinstance(v[1], int) and v[1] > 0 and wf_view(v[2], True) \
+            and not futures_of(v[2])
     return False
 
 
@@ -389,6 +486,10 @@ def generate(rng, tier):
                     rest = [f for f in futs if f not in init]
                     yield item(ooo, rng.choice([0, 1]), tree, list(init), rand_schedule(rng, rest),
                                "tpl-init-" + ("ooo" if ooo else "io"))
+            if kinds_in(tree) & LEPTOS_KINDS:
+                # executor turns controlled by the schedule
+                for s in tick_schedules(tree, rng, 60 if quick else None):
+                    yield item(ooo, 0, tree, [], s, "tpl-ticks-" + ("ooo" if ooo else "io"), op=1)
     # 2. random trees
     n = 9000 if quick else 160000
     for i in range(n):
@@ -405,6 +506,10 @@ def generate(rng, tier):
             drive = rng.choice([0, 0, 1])
             yield item(ooo, drive, tree, init, rand_schedule(rng, rest),
                        "rnd-%s-%s" % (fam, "ooo" if ooo else "io"))
+        if fam == "leptos" and (kinds_in(tree) & LEPTOS_KINDS):
+            for _ in range(reps):
+                yield item(ooo, 0, tree, [], rand_tick_schedule(rng, tree),
+                           "rnd-ticks-%s" % ("ooo" if ooo else "io"), op=1)
 
 
 # ------------------------------------------------------------------ oracle
@@ -478,6 +583,8 @@ def py_render(v, flag, dropped=frozenset()):
         return text_of_node(v), flag
     if k in (11, 12):
         return py_render(v[2], flag, dropped)
+    if k == 13:
+        return py_render(v[2], flag, dropped)      # closure -> Option::Some(view): transparent
     raise ValueError(v)
 
 
@@ -485,7 +592,7 @@ def awaited(v):
     """futures a <Suspense> waits for: the Suspends among its children that are not inside
     another Suspend's content or a nested Suspense"""
     k = v[0]
-    if k == 3:
+    if k in (3, 13):
         return [v[1]]
     if k in (11, 12, 4, 7):
         return []
@@ -500,7 +607,7 @@ def label_scopes(v, chain, out):
         s = text_of_node(v)
         if s:
             out.append((html_escape(s), list(chain)))
-    elif k in (3, 7):
+    elif k in (3, 7, 13):
         label_scopes(v[2], chain + [("content", [v[1]])], out)
     elif k == 4:
         label_scopes(v[2], chain + [("fallback", [v[1]])], out)
@@ -605,8 +712,9 @@ def oracle(item, impl):
     first_none = next(i for i, e in enumerate(polls) if e[0] == 2)
     if any(e[0] != 2 for e in polls[first_none:]):
         return "stream yielded again after returning None"
-    # ---- wake-ups (literal drive)
-    if drive == 0:
+    # ---- wake-ups (literal drive; with opcode 1 the executor turns are explicit and the drain
+    # phase alternates turns and polls, so only termination is checked there)
+    if drive == 0 and case[0] == 0:
         futs = set(futures_of(tree))
         order = completion_order(case)
         done = set(init)
@@ -693,6 +801,8 @@ def pos_free(ooo, v, flag, init, strict, in_suspense=False, dropped=frozenset())
         return end_flag(content, flag, dropped) == handed and rec(content, flag, True)
     if k in (5, 10):
         return rec(v[1], flag, strict)
+    if k == 13:
+        return rec(v[2], flag, strict)
     if k == 7:
         return rec(v[2], flag, True)
     if k in (11, 12):
@@ -770,9 +880,12 @@ def nontrivial(item, model):
 def describe(it):
     case = it["case"]
     ooo, drive, tree, init, sched = unpack(case)
-    ev = " ".join("done(f%d)" % e[1] if e[0] == 0 else "poll" for e in sched)
-    return "%s stream, %s drive, view %s, complete before render %r, schedule: %s" % (
-        "out-of-order" if ooo else "in-order", "executor" if drive else "literal", show_view(tree), init, ev)
+    names = {1: "poll", 2: "tick", 3: "create-resources", 4: "render"}
+    ev = " ".join("done(f%d)" % e[1] if e[0] == 0 else names.get(e[0], "?") for e in case[5])
+    return "%s stream, %s, view %s, complete before render %r, schedule: %s" % (
+        "out-of-order" if ooo else "in-order",
+        "executor turns in the schedule" if case[0] == 1 else ("executor drive" if drive else "literal drive"),
+        show_view(tree), init, ev)
 
 
 def coverage_extra(results):
